@@ -131,6 +131,35 @@ def run_ops(desc):
                     "violations": [{"component": comp, "kind": "raises:%s" % type(ex).__name__, "trigger": "any",
                                     "detail": "precompute with use_speed_up=True (kind %s): %s" % (kind, str(ex)[:200])}],
                     "observed": {"kind": kind}}
+    if speed and (desc["seed"] >> 11) % 2:
+        # a prefitted classifier handed to the wrapper (no fit through the wrapper yet): with and without the speed-up the
+        # wrapper answers like that classifier
+        contracts.count("C19.prefitted-speed-up-equivalence")
+        fitted = clone(base).fit(X, y)
+        pre = IndexClassifierWrapper(fitted, X, y, use_speed_up=True, missing_label=ml)
+        import warnings as _w
+        with _w.catch_warnings():
+            _w.simplefilter("ignore")
+            try:
+                pre.precompute(np.arange(n), np.arange(n))
+                got = {"predict": np.asarray(pre.predict(np.arange(n))), "predict_freq": np.asarray(pre.predict_freq(np.arange(n))),
+                       "predict_proba": np.asarray(pre.predict_proba(np.arange(n)))}
+                want = {"predict": np.asarray(fitted.predict(X)), "predict_freq": np.asarray(fitted.predict_freq(X)),
+                        "predict_proba": np.asarray(fitted.predict_proba(X))}
+                for k_ in ("predict_freq", "predict_proba", "predict"):
+                    ok_ = got[k_].shape == want[k_].shape and (np.allclose(got[k_], want[k_], rtol=1e-7, atol=1e-9) if k_ != "predict"
+                                                               else True)
+                    if not ok_:
+                        return {"status": "ok", "nontrivial": True, "cells": ["kind=%s" % kind], "monitors": contracts.drain_evals(),
+                                "nt_key": "prefit|%s|%d" % (kind, desc["seed"] % 9973),
+                                "violations": [{"component": comp, "kind": "prefitted-wrapper-with-speed-up-differs:%s" % k_, "trigger": "any",
+                                                "detail": "wrapper %r vs classifier %r" % (got[k_][:2].tolist(), want[k_][:2].tolist())}],
+                                "observed": {"kind": kind}}
+            except Exception as ex:
+                return {"status": "ok", "nontrivial": True, "cells": ["kind=%s" % kind], "monitors": contracts.drain_evals(),
+                        "nt_key": "prefit|%s|%d" % (kind, desc["seed"] % 9973),
+                        "violations": [{"component": comp, "kind": "prefitted-wrapper-raises:%s" % type(ex).__name__, "trigger": "any",
+                                        "detail": str(ex)[:200]}], "observed": {"kind": kind}}
     cur = basem = None          # multisets: lists of (idx, label, weight)
     ref_pf = ref_pf_base = None  # native partial_fit reference objects
     ops, viol = [], []
